@@ -196,6 +196,19 @@ class Evaluator:
         finally:
             self.effects_mode = False
 
+    def _has_effects(self, stmts) -> bool:
+        for st in stmts:
+            for n in ast.walk(st):
+                if isinstance(n, ast.Call) and _callname(n).split(".")[-1] in self.effect_calls:
+                    return True
+                if isinstance(n, (ast.Assign, ast.AugAssign)):
+                    tg = n.targets if isinstance(n, ast.Assign) else [n.target]
+                    if any(isinstance(t, (ast.Attribute, ast.Subscript)) for t in tg):
+                        return True
+                if isinstance(n, ast.Delete):
+                    return True
+        return False
+
     def _fx(self, env, eff):
         env["$fx"] = env.get("$fx", ()) + (eff,)
 
@@ -432,6 +445,14 @@ class Evaluator:
         bindvars(st.target)
         if st.orelse:
             raise Unreadable("for-else")
+        if self.effects_mode and ctx.depth == 0 and self._has_effects(st.body):
+            inner_env = dict(lv_env)
+            inner_env["$fx"] = ()
+            inner = self.exec_block(list(st.body), [(frozenset(), inner_env, None)], ctx)
+            block = frozenset((frozenset(c), e.get("$fx", ()), repr(r) if r is not None else None) for c, e, r in inner)
+            e2 = dict(env)
+            self._fx(e2, ("foreach", it_term, block))
+            return [(conds, e2, None)]
         body = list(st.body)
         filt = frozenset()
         # leading `if c: continue` filters
@@ -716,6 +737,17 @@ class Evaluator:
             return [(c, Tup(items)) for c, items in alts]
         if isinstance(node, (ast.ListComp, ast.GeneratorExp)):
             return [(frozenset(), self.comp(node, env, ctx))]
+        if isinstance(node, ast.Slice):
+            parts = []
+            for x in (node.lower, node.upper, node.step):
+                if x is None:
+                    parts.append(NONE)
+                else:
+                    a = self.ev(x, env, ctx)
+                    if len(a) != 1 or a[0][0]:
+                        raise Unreadable("piecewise slice bound")
+                    parts.append(a[0][1])
+            return [(frozenset(), Rat.atom(("slice",) + tuple(as_term(p) for p in parts)))]
         if isinstance(node, ast.Lambda):
             # canonical in the parameter names: parameters become positional placeholders
             try:
